@@ -641,7 +641,7 @@ fn run_send(ctx: &RunCtx) -> RunOut {
             Some(Ok(())) => {
                 let w = *wire.first().ok_or_else(|| mk("C10.sent_but_not_on_wire", "send succeeded but no HEADERS frame is on the wire".into()))?;
                 if w != size {
-                    return Err(Violation::new("HARNESS", format!("model size {size} != wire size {w}")));
+                    return Err(mk("C10.sent_section_differs_from_submitted", format!("the HEADERS frame on the wire decodes to a section of size {w}, the section submitted has size {size}")));
                 }
                 let lim = fw_limit.unwrap_or(o.limit_after);
                 if w > lim {
